@@ -31,7 +31,7 @@ ASSUMPTIONS = [
     'sysex payloads beyond 70 000 bytes behave like the sizes tried (nothing in the codec depends on size)',
 ]
 DECIDING = ['history enc==ref', 'enc==ref', 'len', 'bin', 'hex', 'from_bytes==m', 'from_hex==m',
-            'time passthrough', 'ridealong enc==ref', 'ridealong dec==ref']
+            'time passthrough', 'ridealong enc==ref', 'ridealong dec==ref', 'cold-start schedules == ref']
 TIMEOUT = {'quick': 300, 'thorough': 1200}
 
 
@@ -349,11 +349,64 @@ def phase_d(ctx):
     ctx.extra('ridealong_decode_checked', mon.n_dec)
 
 
+COLD_MODULES = ['mido.messages.decode', 'mido.messages.encode', 'mido.messages.messages', 'mido.messages.checks',
+                'mido.messages.specs']
+
+
+def cold_jobs():
+    """Thread 0 makes the very first codec calls of the process; thread 1 may be switched in after
+    any line of them (and the other way round: up to one pre-emption anywhere)."""
+    def dec(fn, t, a):
+        enc = midi1.encode(t, a)
+        arg = ' '.join(f'{b:02X}' for b in enc) if fn == 'from_hex' else enc
+        want = {'type': t, 'time': 0, 'class': 'Message'}
+        want.update({k: list(v) if isinstance(v, tuple) else v for k, v in a.items()})
+        return {'fn': fn, 'arg': arg, 'want': want}
+
+    def enc(t, a):
+        return {'fn': 'bytes', 'type': t, 'attrs': {k: list(v) if isinstance(v, tuple) else v for k, v in a.items()},
+                'want': midi1.encode(t, a)}
+    pw = ('pitchwheel', {'channel': 1, 'pitch': 8191})
+    pw2 = ('pitchwheel', {'channel': 15, 'pitch': -8192})
+    sp = ('songpos', {'pos': 16383})
+    qf = ('quarter_frame', {'frame_type': 7, 'frame_value': 15})
+    sx = ('sysex', {'data': (1, 2, 127)})
+    no = ('note_on', {'channel': 9, 'note': 127, 'velocity': 1})
+    pc = ('program_change', {'channel': 3, 'program': 99})
+    others = [dec('from_bytes', *pw2), dec('from_bytes_b', *sp), dec('from_hex', *qf), dec('from_bytes', *sx),
+              dec('from_bytes', *no), enc(*pw2), enc(*sp), enc(*qf), enc(*sx), enc(*pc)]
+    firsts = [[dec('from_bytes', *pw)], [enc(*pw)], [dec('from_hex', *sp), enc(*qf)], [dec('from_bytes_b', *sx), enc(*no)]]
+    return [{'modules': COLD_MODULES, 'jobs': [f, others], 'k': 1} for f in firsts]
+
+
+def phase_f(ctx):
+    """Cold start (vmon.coldstart): the first codec calls of a fresh interpreter, two threads."""
+    from .. import coldstart
+    jobs = cold_jobs()
+    n = 0
+    for ji, job in enumerate(jobs):
+        if ji % ctx.nshards != (ctx.shard - 3) % ctx.nshards:
+            continue
+        rep = coldstart.run_job(job)
+        k = coldstart.judge(ctx, 'cold-start schedules == ref', 'cold', job, rep, 'cold')
+        n += k
+        if k:
+            ctx.nontrivial(None, k)
+            ctx.extra('cold_start_schedules', k)
+            ctx.extra('cold_start_steps', rep['steps'])
+            ctx.extra('cold_start_distinct_traces', rep['distinct_traces'])
+            if ji == 0:
+                ctx.put_sample({'kind': 'cold-start', 'schedules': k, 'distinct_traces': rep['distinct_traces'],
+                                'switch_sites': rep['switch_sites'][:12]})
+    ctx.count('cases', n)
+
+
 def run(ctx):
     phase_a(ctx)
     phase_b(ctx)
     phase_e(ctx)
     phase_d(ctx)
+    phase_f(ctx)
 
 
 def replay(ctx, case):
@@ -373,6 +426,12 @@ def replay(ctx, case):
         return
     elif k == 'history':
         history(ctx, case['type'], case['steps'], case['seed'])
+        return
+    elif k == 'cold':
+        from .. import coldstart
+        job = dict(case['job'])
+        rep = coldstart.run_job(job)
+        coldstart.judge(ctx, 'cold-start schedules == ref', 'cold', job, rep, 'cold')
         return
     elif k == 'ridealong':
         from ..mon import wrap
